@@ -368,14 +368,16 @@ def arc_include(thetas, reference_theta):
     """
 
     s_thetas = np.copy(thetas)
-    s_theta1 = thetas[..., 1] - thetas[..., 0]
-    s_reference = np.expand_dims(reference_theta - thetas[..., 0],
-                                 axis=-1)
+
+    # atleast_1d: for a single pair of angles the differences are
+    # scalars, which do not support masked in-place updates
+    s_theta1 = np.atleast_1d(thetas[..., 1] - thetas[..., 0])
+    s_reference = np.atleast_1d(reference_theta - thetas[..., 0])
 
     s_theta1[s_theta1 < 0] += 2 * np.pi
     s_reference[s_reference < 0] += 2 * np.pi
 
-    to_swap = (s_theta1 < s_reference[..., 0])
+    to_swap = (s_theta1 < s_reference).reshape(thetas.shape[:-1])
 
     s_thetas[to_swap] = np.flip(s_thetas[to_swap], axis=-1)
     return s_thetas
